@@ -28,6 +28,8 @@ import (
 
 func init() {
 	ekit.Register("C19", ekit.Scenario{Name: "ws-check-origin-takes-effect", Run: runOrigin})
+	// C15: whatever the listener's options were set to, an accepted upgrade selects the SP subprotocol
+	ekit.Register("C15", ekit.Scenario{Name: "ws-upgrade-selects-sp-subprotocol-under-every-origin-setting", Run: runOrigin})
 }
 
 func originSeqs() [][]bool {
@@ -111,10 +113,14 @@ func originCase(tr string, seq []bool, lastAfterListen bool) map[string]string {
 	}
 	u, _ := url.Parse(l.Address())
 	for _, foreign := range []bool{false, true} {
-		code, err := rawUpgrade(tr, u.Host, u.Path, foreign)
+		code, sub, err := rawUpgrade(tr, u.Host, u.Path, foreign)
 		if err != nil {
 			fails["origin-upgrade-error:"+tr] = err.Error()
 			continue
+		}
+		if code == http.StatusSwitchingProtocols && sub != "pair.sp.nanomsg.org" {
+			// whatever the origin options were set to, an accepted upgrade still selects the SP subprotocol
+			fails["upgrade-without-sp-subprotocol:"+tr] = fmt.Sprintf("the upgrade was accepted (101) but the response selects the subprotocol %q instead of the offered pair.sp.nanomsg.org", sub)
 		}
 		switch {
 		case !foreign && code != http.StatusSwitchingProtocols:
@@ -129,7 +135,7 @@ func originCase(tr string, seq []bool, lastAfterListen bool) map[string]string {
 }
 
 // rawUpgrade sends one WebSocket upgrade request and returns the status code of the answer.
-func rawUpgrade(tr, host, path string, foreignOrigin bool) (int, error) {
+func rawUpgrade(tr, host, path string, foreignOrigin bool) (int, string, error) {
 	var c net.Conn
 	var err error
 	d := &net.Dialer{Timeout: 10 * time.Second}
@@ -140,7 +146,7 @@ func rawUpgrade(tr, host, path string, foreignOrigin bool) (int, error) {
 		c, err = d.Dial("tcp", host)
 	}
 	if err != nil {
-		return 0, err
+		return 0, "", err
 	}
 	defer c.Close()
 	_ = c.SetDeadline(time.Now().Add(20 * time.Second))
@@ -151,19 +157,30 @@ func rawUpgrade(tr, host, path string, foreignOrigin bool) (int, error) {
 	}
 	req += "\r\n"
 	if _, err := c.Write([]byte(req)); err != nil {
-		return 0, err
+		return 0, "", err
 	}
-	line, err := bufio.NewReader(c).ReadString('\n')
+	br := bufio.NewReader(c)
+	line, err := br.ReadString('\n')
 	if err != nil {
-		return 0, err
+		return 0, "", err
 	}
 	f := strings.Fields(line)
 	if len(f) < 2 {
-		return 0, fmt.Errorf("bad status line %q", line)
+		return 0, "", fmt.Errorf("bad status line %q", line)
 	}
 	var code int
 	_, _ = fmt.Sscanf(f[1], "%d", &code)
-	return code, nil
+	sub := ""
+	for {
+		h, err := br.ReadString('\n')
+		if err != nil || strings.TrimSpace(h) == "" {
+			break
+		}
+		if i := strings.Index(h, ":"); i > 0 && strings.EqualFold(strings.TrimSpace(h[:i]), "Sec-WebSocket-Protocol") {
+			sub = strings.TrimSpace(h[i+1:])
+		}
+	}
+	return code, sub, nil
 }
 
 var _ = mangos.OptionTLSConfig
